@@ -837,19 +837,19 @@ func ruleV7(c *Ctx, id string) {
 
 // frozen justifications of the explicit panics reachable from handlers
 var panicJustified = map[string]string{
-	"(*fstxn.FsTxn).AllocInode|AllocInode":        "allocator bit free implies inode FREE (C01.R3, C08.G2)",
-	"(*fstxn.FsTxn).LockInode|GetInodeLocked":     "cache.LookupSlot never returns nil (evicts instead)",
-	"(*fstxn.FsTxn).GetInodeInum|getInodeInum":    "a non-FREE inode has Nlink >= 1 (C04.S3 balance)",
-	"(*fstxn.FsTxn).GetInodeUnlocked|GetInodeUnlocked": "called only under OwnInum == true (dir.Apply)",
-	"(*inode.Inode).WriteInode|WriteInode":        "Inum < NInode for every cached inode (C11.V2)",
+	"(*fstxn.FsTxn).AllocInode|AllocInode":                "allocator bit free implies inode FREE (C01.R3, C08.G2)",
+	"(*fstxn.FsTxn).LockInode|GetInodeLocked":             "cache.LookupSlot never returns nil (evicts instead)",
+	"(*fstxn.FsTxn).GetInodeInum|getInodeInum":            "a non-FREE inode has Nlink >= 1 (C04.S3 balance)",
+	"(*fstxn.FsTxn).GetInodeUnlocked|GetInodeUnlocked":    "called only under OwnInum == true (dir.Apply)",
+	"(*inode.Inode).WriteInode|WriteInode":                "Inum < NInode for every cached inode (C11.V2)",
 	"(*alloctxn.AllocTxn).AssertValidBlock|invalid blkno": "block pointers come from the allocator, whose range is the data region (C15.K3)",
-	"dir.RemName|RemName":                         "name cache mirrors the directory (C10.W2, C09.A2)",
-	"nfs.lockInodes$2|func":                       "every sorted number is one of the caller's numbers (private copy, C06.L1)",
-	"(*fstxn.FsTxn).dropInodes|dropInodes":        "cache.LookupSlot never returns nil (evicts instead)",
-	"(*cache.Cache).evict|evict":                  "cache non-empty when full",
-	"(*cache.Cache).LookupSlot|LookupSlot":        "entries map keyed by id",
-	"(*shrinker.ShrinkerSt).DoShrink|shrink":      "GetInodeInumFree never returns nil",
-	"(*shrinker.ShrinkerSt).shrinker|shrink":      "background shrink commit failure is fatal by design (journal too small)",
+	"dir.RemName|RemName":                                 "name cache mirrors the directory (C10.W2, C09.A2)",
+	"nfs.lockInodes$2|func":                               "every sorted number is one of the caller's numbers (private copy, C06.L1)",
+	"(*fstxn.FsTxn).dropInodes|dropInodes":                "cache.LookupSlot never returns nil (evicts instead)",
+	"(*cache.Cache).evict|evict":                          "cache non-empty when full",
+	"(*cache.Cache).LookupSlot|LookupSlot":                "entries map keyed by id",
+	"(*shrinker.ShrinkerSt).DoShrink|shrink":              "GetInodeInumFree never returns nil",
+	"(*shrinker.ShrinkerSt).shrinker|shrink":              "background shrink commit failure is fatal by design (journal too small)",
 }
 
 func ruleV8(c *Ctx, id string) {
